@@ -121,7 +121,7 @@ var _ RawRegister32 = ParseTXTErrorCode(0)
 // ReadTxtErrorCode reads a TXT.ERRORCODE register from TXT config
 func ReadTxtErrorCode(data TXTConfigSpace) (TXTErrorCode, error) {
 	var u32 uint32
-	buf := bytes.NewReader(data[TXTErrorCodeRegisterOffset:])
+	buf := bytes.NewReader(data.from(TXTErrorCodeRegisterOffset))
 	err := binary.Read(buf, binary.LittleEndian, &u32)
 
 	if err != nil {
